@@ -99,6 +99,65 @@ def check_late_lookup(ctx):
         'reference may be resolved once and go stale' % U(stores[0][1]))
 
 
+def check_transparent(ctx):
+    """The alias is a pure pass-through: it has no side effects and its
+    result is the result of evaluating the referenced definition (or False
+    for an undefined reference)."""
+    from ..effects import effects_of
+    prog = ctx.prog
+    cq = prog.registered_checks().get('rule')
+    f = prog.find_method(cq, '__call__')
+    W = ctx.where(f.module, f.node)
+    effs = effects_of(f)
+    ctx.ob('C06.TRANSPARENT', not effs, ctx.where(f.module, effs[0].node)
+           if effs else W, f.qual,
+           'side effects of the alias: %s' % ([U(e.node)[:50] for e in effs]
+                                              or 'none'),
+           'evaluating an alias leaves no state behind' if not effs else
+           'evaluating a rule: reference writes state (%s): a later '
+           'evaluation of the same reference can decide differently from '
+           'its definition' % effs[0].path)
+    t = Table(prog, f)
+    bad = None
+    for p in t.paths:
+        exc = any(c.kind == 'exc' for c in p.conds)
+        if p.outcome.kind != 'return' or p.outcome.expr is None:
+            bad = bad or (p, p.outcome.text())
+            continue
+        e = t.expand(p.outcome.expr)
+        if exc:
+            if not is_const(e, False):
+                bad = bad or (p, 'returns %s for an undefined reference'
+                              % U(e))
+        elif not (isinstance(e, ast.Call) and is_check_call(
+                prog, f.module, e)):
+            bad = bad or (p, 'returns %s instead of the result of '
+                          'evaluating the definition' % U(e)[:80])
+        elif [c for c in p.conds if c.kind == 'test']:
+            bad = bad or (p, 'evaluates the definition only under the '
+                          'condition %s' % p.cond_text()[:120])
+    ctx.ob('C06.TRANSPARENT', bad is None, W, f.qual,
+           'result of the alias (%d paths)' % len(t.paths),
+           'always the decision of the current definition' if bad is None
+           else 'the alias %s (path: %s)' % (bad[1],
+                                             bad[0].cond_text()[-200:]))
+    # other evaluation-side code must not cache decisions either: enforce
+    # and _check write nothing but the documented creds mirror
+    chk = prog.func(CHECKS + '._check')
+    effs = effects_of(chk)
+    # local list building is fine; attribute / global writes are not
+    effs = [e for e in effs if e.kind in ('store', 'global', 'del')
+            or (e.kind.startswith('mutcall') and '.' in e.path)]
+    ctx.ob('C06.TRANSPARENT', not effs, ctx.where(chk.module, effs[0].node)
+           if effs else ctx.where(chk.module, chk.node), chk.qual,
+           'side effects of the adapter: %s' % ([U(e.node)[:50]
+                                                 for e in effs] or 'none'),
+           'the adapter keeps no state' if not effs else
+           'the adapter that calls every check writes state (%s): what it '
+           'remembers for one check class or call can leak into the next'
+           % effs[0].path)
+
+
 def check_adapter(ctx):
     prog = ctx.prog
     f = prog.func(CHECKS + '._check')
@@ -257,6 +316,7 @@ def check(ctx):
     ctx.assume('custom check classes follow the BaseCheck.__call__ protocol')
     check_pass_through(ctx)
     check_late_lookup(ctx)
+    check_transparent(ctx)
     check_adapter(ctx)
     check_entry(ctx)
     # C06.UNDEFINED = C03.RAISE-CATCH at the alias lookup
